@@ -3714,7 +3714,12 @@ class FuncS(ValueFunc):
                 if base != 10:
                     value = f"{int(value):x}"
                 elif digits != -1:
-                    value = str(round(float(value), digits))
+                    try:
+                        # an int has no digits behind the point: a float
+                        # would drop the low digits of one above 2**53
+                        value = str(round(int(value), digits)) + ".0"
+                    except ValueError:
+                        value = str(round(float(value), digits))
             except (ValueError, OverflowError):
                 raise CklRuntimeError(
                     ValueString("ERROR"),
